@@ -913,7 +913,7 @@ impl Monitor for C15 {
         cfg.backrefs = false;
         for _ in 0..n {
             let ngr = rng.below(13);
-            let ast = if rng.chance(1, 3) { groups_pattern(&mut rng, ngr) } else { gen_pattern(&mut rng, &cfg) };
+            let ast = if rng.chance(1, 8) { gen_capture_loop_shape(&mut rng) } else if rng.chance(1, 3) { groups_pattern(&mut rng, ngr) } else { gen_pattern(&mut rng, &cfg) };
             if ast.nullable() {
                 continue;
             }
